@@ -13,7 +13,11 @@ open Hecs
 structure JState where
   engine : String := "world"
   worlds : WorldJudge.Worlds := []
+  specs : WorldJudge.Specs := []
+  /-- the concrete model no longer tracks the implementation in this history -/
   diverged : Bool := false
+  /-- the specification oracle stopped (its state is unknown after a rejected step) -/
+  specDead : Bool := false
 
 def splitArrow (line : String) : String × Option String :=
   match line.splitOn " => " with
@@ -27,20 +31,36 @@ def stepLine (st : JState) (line : String) : JState × String :=
     match line.splitOn " " with
     | _ :: eng :: _ => ({ engine := eng }, "ok")
     | _ => (st, "ERR bad history line")
-  else if st.diverged then (st, "skip")
   else if line.startsWith "#" then (st, "ok")
   else
     let (lhs, rhs) := splitArrow line
     match st.engine with
     | "world" =>
-      match WorldJudge.stepLine st.worlds lhs with
-      | .error m => ({ st with diverged := true }, "ERR " ++ m)
-      | .ok (ws, model) =>
+      -- (S) specification oracle on the implementation's own answer
+      let (st, specMsg) : JState × Option String :=
         match rhs with
-        | none => ({ st with worlds := ws }, "MODEL " ++ model)
+        | none => (st, none)
         | some r =>
-          if r.trimAscii.toString == model then ({ st with worlds := ws }, "ok")
-          else ({ st with worlds := ws, diverged := true }, "DIFF model=" ++ model)
+          if st.specDead then (st, none)
+          else if r.trimAscii.toString == "panic" && !(lhs.startsWith "spawn_cb_at") then
+            ({ st with specDead := true }, some "operation panicked inside hecs")
+          else match WorldJudge.specLine st.specs lhs r with
+            | .ok ss => ({ st with specs := ss }, none)
+            | .error m => ({ st with specDead := true }, some m)
+      match specMsg with
+      | some m => ({ st with diverged := true }, "SPEC " ++ m)
+      | none =>
+        if st.diverged then (st, "skip")
+        else
+          -- (O) the concrete model
+          match WorldJudge.stepLine st.worlds lhs with
+          | .error m => ({ st with diverged := true }, "ERR " ++ m)
+          | .ok (ws, model) =>
+            match rhs with
+            | none => ({ st with worlds := ws }, "MODEL " ++ model)
+            | some r =>
+              if r.trimAscii.toString == model then ({ st with worlds := ws }, "ok")
+              else ({ st with worlds := ws, diverged := true }, "DIFF model=" ++ model)
     | e => (st, "ERR unknown engine " ++ e)
 
 partial def loop (h : IO.FS.Stream) (out : IO.FS.Stream) (st : JState) : IO Unit := do
